@@ -30,6 +30,8 @@ BY_HAND_P = {'stepRet': {'seq', 'connStart', 'connHib'}, 'stepRaise': {'connHib'
 #: the same for the trace view (TStep.lean)
 #: the same for the object view (OStep.lean)
 BY_HAND_O = {'stepRet': {'seq', 'connStart', 'connHib', 'firstMonitor'}, 'stepRaise': {'connHib'}}
+#: the same for the structure view (CStep.lean)
+BY_HAND_C = {'stepRet': {'seq', 'connStart', 'connHib', 'lockBody'}, 'stepRaise': {'connHib', 'lockBody'}}
 BY_HAND_T = {'stepRet': {'seq', 'connStart', 'lockBody'}, 'stepRaise': {'connHib', 'lockBody'}}
 
 
@@ -43,7 +45,7 @@ def names_of(binders):
 def lemmas(fn, xb, xa, view='k'):
     out = []
     for name, args in ctors:
-        if name in {'k': BY_HAND, 't': BY_HAND_T, 'p': BY_HAND_P, 's': BY_HAND_P, 'q': BY_HAND_P, 'o': BY_HAND_O}[view][fn]:
+        if name in {'k': BY_HAND, 't': BY_HAND_T, 'p': BY_HAND_P, 's': BY_HAND_P, 'q': BY_HAND_P, 'o': BY_HAND_O, 'c': BY_HAND_C}[view][fn]:
             continue
         # (binder groups such as `(total thr : τ)`: prefix every name, so that none clashes with `a`, `fs`, `v`, `e`)
         binders = re.sub(r'\(([^:()]+):', lambda m: '(' + ' '.join('x_' + n for n in m.group(1).split()) + ' :', args.replace('τ', 'Rat'))
@@ -57,6 +59,9 @@ def lemmas(fn, xb, xa, view='k'):
         elif view == 'q':
             out.append('theorem %sQ_%s {t0 : Array Task} {a0 : Array (Activity Rat)} (a : ActId) (fs : List (Frame Rat)) %s %s (h0 : QExt t0 a0 w.tasks w.acts) :\n'
                        '    QExt t0 a0 (w.%s a (%s) fs %s).tasks (w.%s a (%s) fs %s).acts := by\n  simp only [%s]; qx h0\n' % (fn, name, xb, binders, fn, app, xa, fn, app, xa, fn))
+        elif view == 'c':
+            out.append('theorem %sC_%s {o0 : CV} (a : ActId) (fs : List (Frame Rat)) %s %s (h0 : CX(o0, w)) :\n'
+                       '    CX(o0, (w.%s a (%s) fs %s)) := by\n  simp only [%s]; cx h0\n' % (fn, name, xb, binders, fn, app, xa, fn))
         elif view == 'o':
             out.append('theorem %sO_%s {o0 : OV} (a : ActId) (fs : List (Frame Rat)) %s %s (h0 : OX(o0, w)) :\n'
                        '    OX(o0, (w.%s a (%s) fs %s)) := by\n  simp only [%s]; ox h0\n' % (fn, name, xb, binders, fn, app, xa, fn))
@@ -72,10 +77,10 @@ def lemmas(fn, xb, xa, view='k'):
 def cases(fn, xa, view='k'):
     out = []
     for name, args in ctors:
-        if name in {'k': BY_HAND, 't': BY_HAND_T, 'p': BY_HAND_P, 's': BY_HAND_P, 'q': BY_HAND_P, 'o': BY_HAND_O}[view][fn]:
+        if name in {'k': BY_HAND, 't': BY_HAND_T, 'p': BY_HAND_P, 's': BY_HAND_P, 'q': BY_HAND_P, 'o': BY_HAND_O, 'c': BY_HAND_C}[view][fn]:
             continue
         ns = ['x%d' % k for k, _ in enumerate(names_of(args))]
-        out.append('  | %s %s => exact %s%s_%s w a fs %s %s h0' % (name, ' '.join(ns), fn, {'k': '', 't': 'T', 'p': 'P', 's': 'S', 'q': 'Q', 'o': 'O'}[view], name, xa, ' '.join(ns)))
+        out.append('  | %s %s => exact %s%s_%s w a fs %s %s h0' % (name, ' '.join(ns), fn, {'k': '', 't': 'T', 'p': 'P', 's': 'S', 'q': 'Q', 'o': 'O', 'c': 'C'}[view], name, xa, ' '.join(ns)))
     return out
 
 
@@ -196,4 +201,14 @@ end USim.Machine
 open(os.path.join(ROOT, 'USimModel/Lemmas/OStepFrames.lean'), 'w').write(otext)
 open(os.path.join(ROOT, 'USimModel/Lemmas/OStepCases.txt'), 'w').write(
     '-- stepRet\n' + '\n'.join(cases('stepRet', 'v', 'o')) + '\n-- stepRaise\n' + '\n'.join(cases('stepRaise', 'e', 'o')) + '\n')
+ctext = stext.replace('SView', 'CView').replace('the signal table', 'the structure tables (conditions, listeners, locks, pipes)')
+i = ctext.index('/-! ### stepRet -/')
+ctext = ctext[:i] + '''/-! ### stepRet -/
+%s
+/-! ### stepRaise -/
+%s
+end World
+end USim.Machine
+''' % ('\n'.join(lemmas('stepRet', '(v : Val)', 'v', 'c')), '\n'.join(lemmas('stepRaise', '(e : ExnId)', 'e', 'c')))
+open(os.path.join(ROOT, 'USimModel/Lemmas/CStepFrames.lean'), 'w').write(ctext)
 print('%d constructors' % len(ctors))
